@@ -100,10 +100,12 @@ func (c *replacerCompiler) compile(v reflect.Value) Replacer {
 		}
 
 	case goast.ObjectPtrType:
-		// Ident.Obj forms a cycle so we'll replace it with a nil pointer.
-		return ValueReplacer{
-			Value: reflect.ValueOf((*ast.Object)(nil)),
-		}
+		// Ident.Obj forms a cycle, so it is not copied; the copy of the
+		// identifier refers to the same object. It has to refer to something:
+		// an identifier without an object looks like a reference to a package
+		// (see usesNameAsTopLevel), and a copy of "conn.fd", where conn is a
+		// parameter, must not keep an import named conn alive.
+		return ValueReplacer{Value: v}
 
 	case goast.PosType:
 		return c.compilePosReplacer(v)
